@@ -101,6 +101,9 @@ def check_feature(obj, f, X, y, kind, vals, viol, raw_vals=None):
         rank = {v: i for i, v in enumerate(vals)}
         prev_hi = -1
         for l in leaders:
+            foreign = [m for m in order.content[l] if isinstance(m, str) and m not in rank and not space.is_nan_leader(m)]
+            if foreign:
+                viol.append({"kind": "ordinal-foreign-value", "what": f"{f}: group {order.content[l]!r} holds {foreign!r}, which are not values of the user ranking {vals!r}"})
             mem = [m for m in order.content[l] if m in rank]
             if not mem:
                 continue
@@ -164,6 +167,10 @@ def run_case(case):
     if case["kind"] == "ORD":
         vals = [v if isinstance(v, str) else space.str_form(v) for v in vals]
     for f in list(obj.features):
+        raw = next((r for r, lst in obj.features_casting.items() if f in lst), f)
+        if raw != "f":  # companion features are plain categorical / quantitative columns
+            info += check_feature(obj, f, fit["X"], fit["y"], "CAT", [], res["violations"])
+            continue
         info += check_feature(obj, f, fit["X"], fit["y"], case["kind"], vals, res["violations"], raw_vals=list(fit["vals"]))
     # carvers on categorical features: groups are runs of the rate-sorted base modalities (also judged in C01)
     res["outcome"] = f"{case['type']}:{case['kind']}:{obj.output_dtype}:{'nan' if case.get('nan') else '-'}"
